@@ -17,13 +17,13 @@ import (
 // instruction), are snapshot-compared as a cross-check, and every call is
 // repeated on the same buffers.
 
-type dstShape struct {
+type zvDstShape struct {
 	name   string
 	prefix int
 	spare  int // spare capacity beyond the prefix: -1 = nil dst, -2 = exactly what is needed, -3 = more than needed
 }
 
-var dstShapes = []dstShape{
+var zvDstShapes = []zvDstShape{
 	{"nil", 0, -1},
 	{"empty-nonnil-cap0", 0, 0},
 	{"prefix1-cap=len", 1, 0},
@@ -36,7 +36,7 @@ var dstShapes = []dstShape{
 	{"prefix1-cap-short-by-1", 1, -4},
 }
 
-func makeDst(sh dstShape, need int, rng *hk.RNG) (dst []byte, backing []byte) {
+func zvMakeDst(sh zvDstShape, need int, rng *hk.RNG) (dst []byte, backing []byte) {
 	if sh.spare == -1 {
 		return nil, nil
 	}
@@ -72,11 +72,11 @@ func TestVerifC10SM4(t *testing.T) {
 	rng := hk.NewRNG(hk.Seed(), "c10")
 	pool := hk.NewPool()
 
-	var cases []*gcmCase
-	mk := func(nl, al, pl, tag int) *gcmCase {
-		return &gcmCase{key: rng.Bytes(16), nonce: rng.Bytes(nl), aad: rng.Bytes(al), pt: rng.Bytes(pl), tag: tag, label: "c10"}
+	var cases []*zvGcmCase
+	mk := func(nl, al, pl, tag int) *zvGcmCase {
+		return &zvGcmCase{key: rng.Bytes(16), nonce: rng.Bytes(nl), aad: rng.Bytes(al), pt: rng.Bytes(pl), tag: tag, label: "c10"}
 	}
-	for _, pl := range lenClasses {
+	for _, pl := range zvLenClasses {
 		cases = append(cases, mk(12, rng.Pick([]int{0, 1, 16, 20, 129}), pl, 16))
 	}
 	for i := 0; i < hk.N(30, 400); i++ {
@@ -90,7 +90,7 @@ func TestVerifC10SM4(t *testing.T) {
 		cases = append(cases, mk(nl, rng.Intn(200), rng.Intn(700), tag))
 	}
 	r.Note("messages", len(cases))
-	r.Sample(hk.D{"message": cases[3].detail()["lens"], "dst_shapes": fmt.Sprint(len(dstShapes)) + " shapes + in-place", "inputs": "key/nonce/aad/message in PROT_READ pages"})
+	r.Sample(hk.D{"message": cases[3].detail()["lens"], "dst_shapes": fmt.Sprint(len(zvDstShapes)) + " shapes + in-place", "inputs": "key/nonce/aad/message in PROT_READ pages"})
 
 	// guarded, write-protected copy of an input
 	protect := func(b []byte) *hk.GBuf {
@@ -101,13 +101,13 @@ func TestVerifC10SM4(t *testing.T) {
 		return g
 	}
 
-	for _, asm := range paths() {
+	for _, asm := range zvPaths() {
 		asm := asm
-		withAsm(asm, func() {
-			pn := pathName(asm)
+		zvWithAsm(asm, func() {
+			pn := zvPathName(asm)
 			otherKey := rng.Bytes(16)
-			otherAEAD, _ := newAEAD(otherKey, 12, 16)
-			otherLong, _ := newAEAD(otherKey, 130, 16)
+			otherAEAD, _ := zvNewAEAD(otherKey, 12, 16)
+			otherLong, _ := zvNewAEAD(otherKey, 130, 16)
 			otherMsg := rng.Bytes(300)
 			for ci, c := range cases {
 				if !hk.InShard(ci) {
@@ -116,8 +116,8 @@ func TestVerifC10SM4(t *testing.T) {
 				g := ref.NewGCM(c.key)
 				sealed := g.Seal(c.nonce, c.pt, c.aad, c.tag)
 				gKey := protect(c.key)
-				a, err := newAEAD(gKey.B, len(c.nonce), c.tag)
-				if err == errComboUnreachable {
+				a, err := zvNewAEAD(gKey.B, len(c.nonce), c.tag)
+				if err == zvErrComboUnreachable {
 					r.Class("trivial:nonce-x-tag-not-offered-on-this-path")
 					continue
 				}
@@ -140,13 +140,13 @@ func TestVerifC10SM4(t *testing.T) {
 					otherAEAD.Open(nil, on, ct, otherMsg[:130])
 					otherLong.Seal(nil, otherMsg[:130], otherMsg[:40], nil)
 				}
-				for _, sh := range dstShapes {
+				for _, sh := range zvDstShapes {
 					// ---------------- Seal
 					for rep := 0; rep < 2; rep++ {
 						if rep == 1 {
 							interfere() // unrelated work under ANOTHER key between the two identical calls
 						}
-						dst, backing := makeDst(sh, len(sealed), rng)
+						dst, backing := zvMakeDst(sh, len(sealed), rng)
 						prefix := append([]byte{}, dst...)
 						var snapshot []byte
 						if backing != nil {
@@ -159,7 +159,7 @@ func TestVerifC10SM4(t *testing.T) {
 						switch {
 						case p && isFault:
 							d["fault_addr"], d["panic"] = fmt.Sprintf("%#x", addr), msg
-							d["fault_in"] = whichBuf(addr, map[string]*hk.GBuf{"key": gKey, "nonce": gNonce, "aad": gAad, "plaintext": gPt})
+							d["fault_in"] = zvWhichBuf(addr, map[string]*hk.GBuf{"key": gKey, "nonce": gNonce, "aad": gAad, "plaintext": gPt})
 							r.Violation(fmt.Sprintf("seal-writes-to-input:%s:%s", pn, d["fault_in"]), d)
 						case p:
 							d["panic"] = msg
@@ -174,14 +174,14 @@ func TestVerifC10SM4(t *testing.T) {
 							}
 						}
 						inputsIntact("seal", sh.name)
-						r.Eval(fmt.Sprintf("%s|seal|%s|pt[%s]", pn, sh.name, kernelClass(len(c.pt))))
+						r.Eval(fmt.Sprintf("%s|seal|%s|pt[%s]", pn, sh.name, zvKernelClass(len(c.pt))))
 					}
 					// ---------------- Open
 					for rep := 0; rep < 2; rep++ {
 						if rep == 1 {
 							interfere() // unrelated work under ANOTHER key between the two identical calls
 						}
-						dst, backing := makeDst(sh, len(c.pt), rng)
+						dst, backing := zvMakeDst(sh, len(c.pt), rng)
 						prefix := append([]byte{}, dst...)
 						var snapshot []byte
 						if backing != nil {
@@ -195,7 +195,7 @@ func TestVerifC10SM4(t *testing.T) {
 						switch {
 						case p && isFault:
 							d["fault_addr"], d["panic"] = fmt.Sprintf("%#x", addr), msg
-							d["fault_in"] = whichBuf(addr, map[string]*hk.GBuf{"key": gKey, "nonce": gNonce, "aad": gAad, "ciphertext": gCt})
+							d["fault_in"] = zvWhichBuf(addr, map[string]*hk.GBuf{"key": gKey, "nonce": gNonce, "aad": gAad, "ciphertext": gCt})
 							r.Violation(fmt.Sprintf("open-writes-to-input:%s:%s", pn, d["fault_in"]), d)
 						case p:
 							d["panic"] = msg
@@ -212,7 +212,7 @@ func TestVerifC10SM4(t *testing.T) {
 							}
 						}
 						inputsIntact("open", sh.name)
-						r.Eval(fmt.Sprintf("%s|open|%s|pt[%s]", pn, sh.name, kernelClass(len(c.pt))))
+						r.Eval(fmt.Sprintf("%s|open|%s|pt[%s]", pn, sh.name, zvKernelClass(len(c.pt))))
 					}
 				}
 				// ---------------- every prefix length 0..200 on the reallocation path (cap too small) and with room
@@ -256,7 +256,7 @@ func TestVerifC10SM4(t *testing.T) {
 							p, msg, _, _ := hk.Try(func() { out = a.Seal(dst, gNonce.B, gPt.B, gAad.B) })
 							if p || !bytes.Equal(out, append(append([]byte{}, prefix...), sealed...)) {
 								d := c.detail()
-								d["prefix_len"], d["room"], d["panic"], d["got_prefix"] = pl, capTotal-pl, msg, hk.Hex(out[:min(len(out), min(pl, 64))])
+								d["prefix_len"], d["room"], d["panic"], d["got_prefix"] = pl, capTotal-pl, msg, hk.Hex(out[:zvMin(len(out), zvMin(pl, 64))])
 								r.Violation(fmt.Sprintf("seal-result-not-dst+output:%s:prefix-sweep:room=%d", pn, room), d)
 							}
 							if !bytes.Equal(backing[capTotal:], snap[capTotal:]) {
@@ -321,7 +321,7 @@ func TestVerifC10SM4(t *testing.T) {
 							r.Violation("gcm-writes-into-caller-record:"+pn, d)
 						}
 					}
-					r.Eval(fmt.Sprintf("%s|record-subslices|pt[%s]", pn, kernelClass(len(c.pt))))
+					r.Eval(fmt.Sprintf("%s|record-subslices|pt[%s]", pn, zvKernelClass(len(c.pt))))
 				}
 				// ---------------- in-place idioms
 				{
@@ -383,7 +383,7 @@ func TestVerifC10SM4(t *testing.T) {
 					}
 					// failed in-place open must not be mistaken for success and must not panic
 					if len(sealed) > 0 {
-						bad := flipBit(sealed, rng.Intn(len(sealed)*8))
+						bad := zvFlipBit(sealed, rng.Intn(len(sealed)*8))
 						p, msg, _, _ = hk.Try(func() { pt, oerr = a.Open(bad[:0], gNonce.B, bad, gAad.B) })
 						if p {
 							d["panic"] = msg
@@ -393,7 +393,7 @@ func TestVerifC10SM4(t *testing.T) {
 						}
 					}
 					inputsIntact("inplace", "in-place")
-					r.Eval(fmt.Sprintf("%s|inplace|pt[%s]", pn, kernelClass(len(c.pt))))
+					r.Eval(fmt.Sprintf("%s|inplace|pt[%s]", pn, zvKernelClass(len(c.pt))))
 				}
 				// ---------------- CROSS-ARGUMENT aliasing that crypto/cipher allows: the additional data (and the nonce)
 				// may be the very bytes dst already holds - the record idiom of crypto/tls,
@@ -425,7 +425,7 @@ func TestVerifC10SM4(t *testing.T) {
 							d["panic"] = msg
 							r.Violation("seal-panics-when-aad-is-the-dst-prefix:"+pn, d)
 						} else if !bytes.Equal(out, append(append([]byte{}, hdr...), wantS...)) {
-							d["got"] = clip(out)
+							d["got"] = zvClip(out)
 							r.Violation("seal-result-not-dst+output-when-aad-is-the-dst-prefix:"+pn, d)
 						}
 						// the same idiom when the header slice has NO spare capacity (len == cap): the result needs a new array, and
@@ -499,7 +499,7 @@ func TestVerifC10SM4(t *testing.T) {
 							}
 						}
 					}
-					r.Eval(fmt.Sprintf("%s|record-idiom(aad=dst-prefix)|pt[%s]", pn, kernelClass(len(c.pt))))
+					r.Eval(fmt.Sprintf("%s|record-idiom(aad=dst-prefix)|pt[%s]", pn, zvKernelClass(len(c.pt))))
 				}
 				// ---------------- ADJACENT but not overlapping arguments in one backing array: an input starts exactly at the
 				// byte where the output region ends (or ends exactly where it starts). Legal for every AEAD; an
@@ -563,7 +563,7 @@ func TestVerifC10SM4(t *testing.T) {
 							r.Violation("open-wrong-on-adjacent-arguments:"+pn, d)
 						}
 					}
-					r.Eval(fmt.Sprintf("%s|adjacent-arguments|pt[%s]", pn, kernelClass(len(c.pt))))
+					r.Eval(fmt.Sprintf("%s|adjacent-arguments|pt[%s]", pn, zvKernelClass(len(c.pt))))
 				}
 				// ---------------- Block: inputs intact, repeatable
 				{
@@ -600,7 +600,7 @@ func TestVerifC10SM4(t *testing.T) {
 	}
 }
 
-func whichBuf(addr uintptr, m map[string]*hk.GBuf) string {
+func zvWhichBuf(addr uintptr, m map[string]*hk.GBuf) string {
 	for name, g := range m {
 		if in, _ := g.InRegion(addr); in {
 			return name
@@ -609,7 +609,7 @@ func whichBuf(addr uintptr, m map[string]*hk.GBuf) string {
 	return "elsewhere"
 }
 
-func min(a, b int) int {
+func zvMin(a, b int) int {
 	if a < b {
 		return a
 	}
